@@ -7,6 +7,7 @@ import RpyModel.Drv.C01
 import RpyModel.Drv.C17
 import RpyModel.Drv.C20
 import RpyModel.Drv.C04
+import RpyModel.Drv.C10
 open Lean
 
 def dispatch (R : Type) [Num R] [Inhabited R] (kind : String) (j : Json) : Except String Json :=
@@ -17,6 +18,8 @@ def dispatch (R : Type) [Num R] [Inhabited R] (kind : String) (j : Json) : Excep
   | "concat" => Drv.handleConcat R j
   | "forecast" => Drv.handleForecast j
   | "ridge_fit" => Drv.handleRidgeFit R j
+  | "online_train" => Drv.handleOnlineTrain R j
+  | "ip_fit" => Drv.handleIpFit R j
   | "readout_forward" => Drv.handleReadoutForward R j
   | "one_hot" => Drv.handleOneHot j
   | "map_steps" => Drv.handleMapSteps R j
